@@ -4,6 +4,7 @@
 import AnyVecModel.Proofs.Exec
 import AnyVecModel.Props.Hist
 import AnyVecModel.Proofs.KernelClone
+import AnyVecModel.Proofs.KernelDelegConstruct
 namespace AnyVec
 namespace C08
 open World
@@ -144,6 +145,20 @@ theorem clone_empty_in_model (w : World) (v : Nat) (bk : Backend) (x : VecSt) (c
     ∃ w', cloneEmptyIn v bk w = (w', .ok w.vecs.length) ∧
       w'.vecs = w.vecs ++ [{ x with bk := bk, cap := cap, cells := [], len := 0, gen := 0, live := true }] :=
   KernelTie.cloneEmptyIn_model w v bk x cap hv hl hb
+
+/-- **source tie**: construction records the clone function of `T` under the requested traits and builds the storage for `Layout::new::<T>()` (with `build_with_size` for `with_capacity`) - as the source has them on this run. -/
+theorem construction_is_the_source (len : Nat) (index : Nat) :
+    Gen.Kernel.anyvec_new_trace len index = [.call "Default::default" [], .call "Self::new_in" []] ∧
+    Gen.Kernel.anyvec_new_in_trace len index = [.call "Layout::new" [], .call "build" [], .call "AnyVecRaw::new" [], .call "Self::build" []] ∧
+    Gen.Kernel.anyvec_with_capacity_trace len index = [.call "Default::default" [], .call "Self::with_capacity_in" [index]] ∧
+    Gen.Kernel.anyvec_with_capacity_in_trace len index = [.call "Layout::new" [], .call "build_with_size" [index], .call "AnyVecRaw::new" [], .call "Self::build" []] ∧
+    Gen.Kernel.anyvec_build_trace len index = [.call "<Traits as CloneType>::new" []] ∧
+    Gen.Kernel.anyvec_element_typeid_trace len index = [.call "= self.raw.type_id" []] ∧
+    Gen.Kernel.anyvec_element_layout_trace len index = [.call "element_layout" []] ∧
+    Gen.Kernel.anyvec_element_drop_trace len index = [.call "= self.raw.drop_fn" []] ∧
+    Gen.Kernel.anyvec_element_clone_trace len index = [.call "clone_fn" []] ∧
+    Gen.Kernel.raw_element_layout_trace len index = [.call "element_layout" []] :=
+  KernelTie.deleg_construct_tie len index
 
 end C08
 end AnyVec
